@@ -82,6 +82,11 @@ class RepoIndex:
                 self.mod_consts[(mod, st.targets[0].id)] = st.value
             elif isinstance(st, ast.AnnAssign) and isinstance(st.target, ast.Name) and st.value is not None:
                 self.mod_consts[(mod, st.target.id)] = st.value
+            elif isinstance(st, ast.Assign) and len(st.targets) == 1 and isinstance(st.targets[0], ast.Tuple) \
+                    and isinstance(st.value, ast.Tuple) and len(st.targets[0].elts) == len(st.value.elts):
+                for tg, vv in zip(st.targets[0].elts, st.value.elts):
+                    if isinstance(tg, ast.Name):
+                        self.mod_consts[(mod, tg.id)] = vv
             elif isinstance(st, ast.Import):
                 for a in st.names:
                     self.mod_imports[(mod, a.asname or a.name.split('.')[0])] = a.name if a.asname else a.name.split('.')[0]
